@@ -70,6 +70,6 @@ theorem accepted (z : ByteArray) (hs : z.size = PAGE) (ha : allZero z 0 PAGE = t
     ∃ stP, checkPlacement (mk z) tr = .ok stP := by
   unfold checkPlacement
   simp only [bind, Except.bind, hmeta, hwalk z hs ha]
-  simp [checkPlacement.go, tr, checkEv, pageCheck, marks1, m, PAGE, Except.map, bind, Except.bind, pure, Except.pure]
+  simp [checkPlacement.go, tr, checkEv, pageCheck, pageCheckBbn, marks1, m, PAGE, Except.map, bind, Except.bind, pure, Except.pure]
 
 end Nomt.Store.Fresh
